@@ -80,6 +80,9 @@ SCENES = [
     (2 ** 20, -(2 ** 20), 2 ** 20 + 8, -(2 ** 20) + 8),
     (2 ** 25, 2 ** 25 - 2, 2 ** 25 + 1, 2 ** 25),
     (-(2 ** 25), 7, -(2 ** 25) + 0.5, 7.25),
+    # degenerate extents of large magnitude: widening by 1 must not be absorbed by a narrow number type
+    (2 ** 24, 0, 2 ** 24, 8),
+    (-8, 2 ** 26, 0, 2 ** 26),
 ]
 
 
@@ -102,6 +105,14 @@ def as_arg(tb, how):
         return np.array([int(v) for v in tb], dtype=np.int64)
     if how == "list_int":
         return [int(v) for v in tb]
+    if how == "ndarray_float32":
+        return np.array([float(v) for v in tb], dtype=np.float32)
+    if how == "list_np_float32":
+        return [np.float32(float(v)) for v in tb]
+    if how == "tuple_np_float64":
+        return tuple(np.float64(float(v)) for v in tb)
+    if how == "ndarray_int32":
+        return np.array([int(v) for v in tb], dtype=np.int32)
     raise ValueError(how)
 
 
@@ -125,7 +136,10 @@ def check_scene(col, kind, tb, plist, seed):
     arr_rev = L.make_array(kind, felems[::-1], "float64")
     arr_with_inert = L.make_array(kind, [None] + felems + [None], "float64")
     integral = all(float(v).is_integer() for v in tb)
-    hows = ["tuple", "list", "ndarray_float"] + (["ndarray_int", "list_int"] if integral else [])
+    hows = ["tuple", "list", "ndarray_float", "tuple_np_float64"] + (["ndarray_int", "list_int", "ndarray_int32"] if integral else [])
+    if all(float(np.float32(float(v))) == float(v) for v in tb):
+        # the same extent spelled with narrower number types
+        hows += ["ndarray_float32", "list_np_float32"]
     for p in plist:
         exp = []
         for cx, cy in pairs:
@@ -198,32 +212,60 @@ def check_default(col, kind, plist):
         ("same_y", [(0, 5), (8, 5), (2, 5)]),
         ("single", [(2, 2)]),
     ]
+    nan = float("nan")
+    configs += [("half_finite_x", [(0, 0), (8, 4), (4, 2), (2, 1), (16, None)]),      # last element: finite in x only
+                ("half_finite_y", [(0, 0), (8, 4), (4, 2), (None, 8), (1, 1)])]
     for name, pts in configs:
+        half = [i for i, q in enumerate(pts) if None in q]
+        fpts = [(0 if q[0] is None else q[0], 0 if q[1] is None else q[1]) for q in pts]
+
+        def nanify(e, q):
+            if isinstance(e, tuple) and len(e) == 2 and not isinstance(e[0], tuple):
+                return (nan if q[0] is None else e[0], nan if q[1] is None else e[1])
+            return tuple(nanify(x, q) for x in e)
         if kind == "point":
-            elems = [tuple(map(float, q)) for q in pts]
+            elems = [nanify(tuple(map(float, f)), q) for f, q in zip(fpts, pts)]
+        elif half:
+            elems = [nanify(to_float_elem(kind, elem_for(kind, Fraction(f[0]), Fraction(f[1]), 0, 0)), q) for f, q in zip(fpts, pts)]
         else:
             elems = [to_float_elem(kind, elem_for(kind, Fraction(q[0]), Fraction(q[1]), 0, 0)) for q in pts]
             if kind in ("ring", "polygon", "multipolygon", "line", "multiline"):
                 # zero-extent shapes: bbox == centre
                 pass
         arr = L.make_array(kind, elems, "float64")
-        xs = [Fraction(q[0]) for q in pts]
-        ys = [Fraction(q[1]) for q in pts]
+        # the same elements in objects with a history: spatial index built / queried before
+        arr_ix = L.make_array(kind, elems, "float64")
+        arr_ix.build_sindex(page_size=2)
+        arr_cx = L.make_array(kind, elems, "float64")
+        arr_cx.cx[0.0:1.0, 0.0:1.0]
+        _ = arr_cx.sindex
+        # per axis, the extent is that of the finite coordinates
+        xs = [Fraction(q[0]) for q in pts if q[0] is not None]
+        ys = [Fraction(q[1]) for q in pts if q[1] is not None]
         tb = (min(xs), min(ys), max(xs), max(ys))
-        case0 = {"kind": kind, "default_bounds": name, "points": [list(map(float, q)) for q in pts]}
+        full = [i for i in range(len(pts)) if i not in half]
+        case0 = {"kind": kind, "default_bounds": name, "points": [[None if v is None else float(v) for v in q] for q in pts]}
         for p in plist:
             col.count("evaluations", len(pts))
             try:
                 got = np.asarray(arr.hilbert_distance(p=p))
+                got_ix = np.asarray(arr_ix.hilbert_distance(p=p))
+                got_cx = np.asarray(arr_cx.hilbert_distance(p=p))
+                got_tb = np.asarray(arr.hilbert_distance(total_bounds=arr.total_bounds, p=p))
             except Exception as ex:
                 col.violation("default.raises", dict(case0, p=p), f"{type(ex).__name__}: {str(ex)[:300]}", config=name)
                 continue
-            exp = np.array([xy2d(p, expected_cell(x, tb[0], tb[2], p), expected_cell(y, tb[1], tb[3], p))
-                            for x, y in zip(xs, ys)], dtype=np.int64)
-            if (got != exp).any():
-                k = int(np.nonzero(got != exp)[0][0])
-                col.violation("default.wrong_distance", dict(case0, p=p, index=k),
-                              f"{name} point {pts[k]} p={p}: got {int(got[k])} expected {int(exp[k])}")
+            exp = np.array([xy2d(p, expected_cell(Fraction(pts[i][0]), tb[0], tb[2], p), expected_cell(Fraction(pts[i][1]), tb[1], tb[3], p))
+                            for i in full], dtype=np.int64)
+            if (got[full] != exp).any():
+                k = int(np.nonzero(got[full] != exp)[0][0])
+                col.violation("default.wrong_distance", dict(case0, p=p, index=full[k]),
+                              f"{name} point {pts[full[k]]} p={p}: got {int(got[full][k])} expected {int(exp[k])}")
+            col.count("evaluations", 3 * len(pts))
+            if (got_ix != got).any() or (got_cx != got).any() or (got_tb != got).any():
+                col.violation("default.state_dependent", dict(case0, p=p),
+                              f"{name} p={p}: fresh {got.tolist()}, after build_sindex {got_ix.tolist()}, after a cx query {got_cx.tolist()}, "
+                              f"with total_bounds=arr.total_bounds {got_tb.tolist()}")
 
 
 def run(ctx):
